@@ -8,6 +8,7 @@ CONSTANTS
   MaxSend = 1
   MaxAdv = 1
   CacheMax = 16
+  Extras = {}
   Asks = {FALSE}
 INVARIANTS NeverSaw
 CHECK_DEADLOCK FALSE
